@@ -20,7 +20,7 @@ def focus_set(fams):
 
 
 def exec_cfg(path, *, tabcols="MC_TabCols", colvals="MC_ColVals", rows=2, steps=1, backends=False,
-             level=1, genbad=False, samplek=0, focus=None, invariants=(), emit=False):
+             level=1, genbad=False, samplek=0, focus=None, invariants=(), emit=False, one_in=1):
     consts = {
         "NULL": "= NULL",
         "TabCols": "<- " + tabcols,
@@ -34,6 +34,7 @@ def exec_cfg(path, *, tabcols="MC_TabCols", colvals="MC_ColVals", rows=2, steps=
         "GenBad": "= " + ("TRUE" if genbad else "FALSE"),
         "SampleK": "= %d" % samplek,
         "Focus": "<- FocusAll" if focus is None else "<- MC_Focus",
+        "EmitOneIn": "= %d" % one_in,
     }
     inv = list(invariants) + (["Emit"] if emit else [])
     common.write_cfg(path, constants=consts, invariants=inv)
@@ -113,13 +114,27 @@ def collect_cases(results, limit=None, rng=None):
     return cases
 
 
+def _uses(e, names):
+    if not isinstance(e, list):
+        return False
+    if len(e) >= 2 and e[0] in ("u", "b", "t") and e[1] in names:
+        return True
+    return any(_uses(x, names) for x in e if isinstance(x, list))
+
+
+def pg_fragment(case):
+    """PostgreSQL-dialect constructs that SQLite cannot execute are outside the proxy (DESIGN.md C02):
+    is_bad / is_inf compare with CAST('+infinity' AS DOUBLE PRECISION)"""
+    return not _uses(case["prog"], ("is_bad", "is_inf"))
+
+
 def judge_all(prop, vd, cases, backends, *, allow_raise=("polars", "polars_lazy"), stats=None,
-              differential=None, accept_matters=True):
+              differential=None, accept_matters=True, opts=None, fn=None, relevant_ops=None):
     """replay cases; every backend against the reference; divergences matched with known findings.
     differential=(a, b): a divergence of a or b counts only if the two final results differ."""
     stats = stats if stats is not None else collections.Counter()
     fnd = vd.findings
-    for case, out in relreplay.replay(cases, backends):
+    for case, out in relreplay.replay(cases, backends, opts=opts, fn=fn):
         stats["cases"] += 1
         if "crash" in out:
             raise common.MachineryError("harness crashed on a case: " + out["crash"])
@@ -133,26 +148,36 @@ def judge_all(prop, vd, cases, backends, *, allow_raise=("polars", "polars_lazy"
             continue
         if nontrivial(case):
             stats["nontrivial"] += 1
-        if differential:
-            a, b = differential
-            fa, fb = out["backends"][a].get("final"), out["backends"][b].get("final")
+        if not out.get("declared_ok", True):
+            stats["declared_columns_mismatch"] += 1
+            vd.violation({"kind": "declared-columns", "case": case, "declared": out["declared"]})
+            continue
         for b_, j in out["backends"].items():
             v = j["verdict"]
             stats["%s:%s" % (b_, v[0])] += 1
             if v[0] in ("ok", "skip"):
+                continue
+            if relevant_ops is not None:
+                si = v[2] if v[0] == "known" else v[1]
+                if isinstance(si, int) and case["prog"][si][0] not in relevant_ops:
+                    stats["%s:upstream_%s_at_other_step" % (b_, v[0])] += 1
+                    continue
+            if b_.split("/")[0] == "pg" and not pg_fragment(case):
+                stats["pg:outside_proxy_fragment"] += 1
                 continue
             fid = kf.classify(case, b_, v, fnd, prop)
             if fid:
                 vd.note_known(fid)
                 stats["%s:KF:%s" % (b_, fid)] += 1
                 continue
-            if v[0] == "raised" and b_ in allow_raise:
+            if v[0] == "raised" and b_.split("/")[0] in allow_raise:
                 stats["%s:raised_allowed" % b_] += 1
                 continue
-            if differential and fa is not None and fb is not None:
-                same, _ = relreplay.same_table(fa, fb)
-                if same:
-                    stats["both_differ_from_reference_identically"] += 1
+            if differential and b_ in differential:
+                other = out["backends"].get(differential[b_], {}).get("final")
+                mine = j.get("final")
+                if other is not None and mine is not None and relreplay.same_table(mine, other)[0]:
+                    stats["differs_from_reference_but_equals_%s" % differential[b_]] += 1
                     continue
             stats["%s:VIOLATION" % b_] += 1
             vd.violation({"kind": "backend-vs-reference", "backend": b_, "verdict": v, "case": case},
